@@ -212,6 +212,16 @@ func c07Scenario(p c07Params) *explore.Scenario {
 		case "writeerr":
 			vc.FailNextWrite()
 			vc.SendLines("PING :provoke-a-write")
+		case "writeerr-partial":
+			// half of the line is taken, then a net.Error that calls itself temporary
+			vc.FailNextWritePartially()
+			vc.SendLines("PING :provoke-a-write")
+			vx.Quiesce()
+			if c.Connected() {
+				// a client that carries on after a temporary error is as good as one that gives up, as long as the
+				// wire stays intact: the server ends this connection then
+				vc.EOF()
+			}
 		case "cancel":
 			cancel()
 		}
@@ -589,6 +599,12 @@ func c07Jobs(tier string) []Job {
 		add(c07Params{Backlog: 1, Segs: "one", Mode: "idle", Cause: cs, UserSend: 5, UserLate: true}, b2, 20)
 	}
 	add(c07Params{Backlog: 1, Segs: "one", Mode: "idle", Cause: "cancel", UserSend: 40, UserLate: true}, b1, 30)
+	// a write that takes half of a line and reports a temporary error
+	for _, bl := range []int{0, 1} {
+		add(c07Params{Backlog: bl, Segs: "one", Mode: "gated", Cause: "writeerr-partial"}, b1, 10)
+	}
+	add(c07Params{Backlog: 1, Segs: "one", Mode: "sending", Emit: 33, Stall: true, Cause: "writeerr-partial"}, b1, 40)
+	add(c07Params{Backlog: 1, Segs: "one", Mode: "idle", Cause: "writeerr-partial", UserSend: 5, UserLate: true}, b2, 20)
 	// the server announces the end with an ERROR line before it closes
 	for _, bl := range []int{0, 1, 33} {
 		add(c07Params{Backlog: bl, Segs: "one", Mode: "gated", Cause: "error-eof"}, b1, 10+bl)
